@@ -130,6 +130,8 @@ def run(ctx, fa, own):
                 fail("C03.skip", "layout-skip", got=(repr(v)[:200]), pos=pos)
             # (3) out-of-range indices planted at every union / enum position must raise
             rdef = _with_enum_defaults(raw)
+            simple = [n.rsplit(".", 1)[-1] for n in _type_names(raw)]
+            dup_simple = len(simple) != len(set(simple))
             for e, bads in zip(g["ix"], g["bad"]):
                 for bad in bads:
                     patched = data[:e["pos"]] + bytes(bad) + data[e["pos"] + e["len"]:]
@@ -142,6 +144,8 @@ def run(ctx, fa, own):
                         fail("C03.index", "index-accepted", kind="negative" if bv < 0 else "too-large", index=bv, n=e["n"], got=repr(v)[:120])
                     # ... also when a reader schema is given whose enums have a default (an index outside the WRITER's list is not
                     # "a symbol the reader does not know": there is no symbol)
+                    if dup_simple:
+                        continue          # two types of one simple name: resolution matches by unqualified name, not this check's business
                     kind, v, pos = read_outcome(fa, patched, raw, rdef)
                     if kind == "raise":
                         ctx.count("C03.index", "ok")
@@ -189,6 +193,33 @@ def run(ctx, fa, own):
         if isinstance(g, dict) and g.get("st") == "ok":
             ctx.sample({"schema": raws[c["id"]], "datum": repr(proj.unpv(c["datum"]))[:160], "layout_bytes": bytes(g["b"]).hex()[:120],
                         "index_positions": g["ix"][:4]})
+
+
+def _type_names(n, ns=""):
+    """Full names of the named types defined in a raw schema (specification's namespace rules)."""
+    out = []
+    if isinstance(n, list):
+        for b in n:
+            out += _type_names(b, ns)
+    elif isinstance(n, dict):
+        t = n.get("type")
+        if t in ("record", "error", "enum", "fixed") and isinstance(n.get("name"), str):
+            name = n["name"]
+            if "." in name:
+                full, ns2 = name, name.rsplit(".", 1)[0]
+            else:
+                ns2 = n.get("namespace", ns)
+                full = ns2 + "." + name if ns2 else name
+            out.append(full)
+            for f in n.get("fields", []) if isinstance(n.get("fields"), list) else []:
+                out += _type_names(f.get("type"), ns2)
+        else:
+            for k in ("items", "values"):
+                if k in n:
+                    out += _type_names(n[k], ns)
+            if isinstance(t, (dict, list)):
+                out += _type_names(t, ns)
+    return out
 
 
 def _with_enum_defaults(raw):
